@@ -468,6 +468,16 @@ func c08One(out rec, rng *rand.Rand, index int, base, sbase string, unpriv bool)
 			out.Count("interference:retarget-link-sharing-first-128-bytes|"+c.Symlinks, 1)
 		}
 	}
+	if index%5 != 0 {
+		for _, t := range plan {
+			if t.change.Old != nil && t.change.Old.Kind == core.EntryKind_Directory && rng.Intn(3) == 0 {
+				if it := c08TemporaryChild(rng, root, snap, t, used); it != nil {
+					t.Interf = append(t.Interf, *it)
+					out.Count("interference:"+it.Kind, 1)
+				}
+			}
+		}
+	}
 	nInterf := rng.Intn(4)
 	if index%5 == 0 {
 		nInterf = 0 // keep a share of completely clean plans for the sanity check
@@ -722,6 +732,71 @@ func c08DiskPath(root string, p string) string {
 	return fullPath(root, p)
 }
 
+// c08TemporaryChild makes a child with a Mutagen temporary name appear in the
+// directory of transition t or one level deeper. Scans never list such names,
+// so no plan can know them. The families are the ones mutagen itself creates
+// (cross-device rename temporaries of Transition, atomic-write temporaries,
+// staging roots, behaviour probe files) plus a generic one.
+func c08TemporaryChild(rng *rand.Rand, root string, snap *core.Entry, t *plannedTransition, used map[string]bool) *interference {
+	top := entryAt(snap, t.Path)
+	if t.change.Old == nil || top == nil || top.Kind != core.EntryKind_Directory {
+		return nil
+	}
+	usable := func(p string) bool {
+		for q := range used {
+			if atOrBelow(p, q) {
+				return false
+			}
+		}
+		fi, err := os.Lstat(fullPath(root, p))
+		return err == nil && fi.IsDir()
+	}
+	dirPath := t.Path
+	if rng.Intn(2) == 0 {
+		var deeper []string
+		for n, e := range top.Contents {
+			if e.Kind == core.EntryKind_Directory && utf8.ValidString(n) && usable(join(t.Path, n)) {
+				deeper = append(deeper, join(t.Path, n))
+			}
+		}
+		sort.Strings(deeper)
+		if len(deeper) > 0 {
+			dirPath = deeper[rng.Intn(len(deeper))]
+		}
+	}
+	if !usable(dirPath) {
+		return nil
+	}
+	families := []struct{ label, name string }{
+		{"cross-device-rename", fmt.Sprintf("%scross-device-rename%d", tempPrefix, rng.Int63())},
+		{"atomic-write", fmt.Sprintf("%satomic-write%d", tempPrefix, rng.Int31())},
+		{"staging", fmt.Sprintf("%sstaging-sync_%d-%s", tempPrefix, uniq(), []string{"alpha", "beta"}[rng.Intn(2)])},
+		{"executability-test", fmt.Sprintf("%sexecutability-test%d", tempPrefix, rng.Int31())},
+		{"unicode-test", fmt.Sprintf("%sunicode-test-\xc3\xa9ntry%d", tempPrefix, rng.Int31())},
+		{"generic", fmt.Sprintf("%sverif-%d", tempPrefix, uniq())},
+	}
+	fam := families[rng.Intn(len(families))]
+	where := "top"
+	if dirPath != t.Path {
+		where = "deeper"
+	}
+	cf, p := filepath.Join(fullPath(root, dirPath), fam.name), join(dirPath, fam.name)
+	t.touched = true
+	kind := "new-child-temporary-file:" + fam.label + ":" + where
+	if fam.label == "staging" && rng.Intn(2) == 0 {
+		// a staging root is a directory holding staged files
+		if os.Mkdir(cf, 0o700) != nil {
+			return nil
+		}
+		os.WriteFile(filepath.Join(cf, "staged"), fsx.UniqueToken(rng, 30), 0o600)
+		kind = "new-child-temporary-directory:staging:" + where
+	} else if os.WriteFile(cf, fsx.UniqueToken(rng, 30), 0o600) != nil {
+		return nil
+	}
+	used[p] = true
+	return &interference{Kind: kind, Path: p, After: observe(cf)}
+}
+
 // exactBytes returns exactly n pseudo-random letters.
 func exactBytes(rng *rand.Rand, n int) []byte {
 	b := make([]byte, n)
@@ -828,13 +903,7 @@ func c08Interfere(rng *rand.Rand, root string, snap *core.Entry, t *plannedTrans
 		t.touched = true
 		switch rng.Intn(4) {
 		case 3:
-			// a Mutagen temporary name: scans never list these
-			name = fmt.Sprintf("%sverif-%d", tempPrefix, uniq())
-			cf, p = filepath.Join(full, name), join(o.path, name)
-			if os.WriteFile(cf, fsx.UniqueToken(rng, 30), 0o600) != nil {
-				return nil
-			}
-			return done("new-child-temporary-file", p, cf)
+			return c08TemporaryChild(rng, root, snap, t, used)
 		case 0:
 			if os.Mkdir(cf, 0o755) != nil {
 				return nil
